@@ -8,7 +8,7 @@ EXPL = ("Trace conformance (A1): every path of the two event-loop coroutines' CF
         "completed (and its error propagated) before any dequeue/handler, handlers never overlap shutdown, stopped "
         "exactly once (after finished on stream loops), nothing after it, failure paths run no further callback.")
 
-LOOP_CHECKS = {"L1", "L2", "L3", "L4", "L5", "L7", "L11"}
+LOOP_CHECKS = {"L1", "L2", "L3", "L4", "L5", "L7", "L11", "L13"}
 
 
 class RefreshSpec(Spec):
